@@ -617,6 +617,7 @@ def count_true(eng, mask, upto=None):
         eng.assume(z3.ForAll([i], z3.Implies(i >= 0, f(i + 1) == f(i) + b(i)), patterns=[f(i + 1)]))
         eng.assume(z3.ForAll([i], z3.Implies(i >= 0, z3.And(f(i) >= 0, f(i) <= i)), patterns=[f(i)]))
         eng.ghost[key] = f
+        eng.ghost.setdefault("cnt-functions", []).append((f, mask))
     n = mask.nz() if upto is None else to_z3(upto, "int")
     return Sym(f(n), "int")
 
